@@ -399,7 +399,7 @@ pub fn run(e: &Engine) {
     e.campaign(
         "working-set-histories",
         "1-23 actions on 6 tasks: Task::set_status to any status (single or several per commit), bare creation, status removal, outright delete, remote status change/deletion arriving by sync, undo, sync, rebuild with and without renumbering; both storages; relational oracle old working set -> new working set; non-trivial = a rebuild started from a working set with a gap, an entry whose task is no longer pending, or an entry whose task no longer exists",
-        e.tier.pick(8000, 400_000),
+        e.tier.pick(60_000, 1_500_000),
         || strategy(1),
         |c| serde_json::to_value(c).unwrap(),
         check_case,
